@@ -414,46 +414,28 @@ Qed.
 
 (* ---------- task level ---------- *)
 Lemma assoc_cmd_final wf sp d v k :
-  assoc k (wrapped_and_flattened (wrapped_and_flattened (merge wf sp) [d]) [v]) =
-  first_hit k [sp; wf; d; v].
+  assoc k (wrapped_and_flattened (merge wf sp) [v; d]) = first_hit k [sp; wf; v; d].
 Proof.
-  rewrite assoc_waf. cbn [first_hit]. rewrite assoc_waf. cbn [first_hit].
-  rewrite assoc_merge.
-  destruct (assoc k sp); [reflexivity|]. destruct (assoc k wf); [reflexivity|].
-  destruct (assoc k d); reflexivity.
+  rewrite assoc_waf. cbn [first_hit]. rewrite assoc_merge.
+  destruct (assoc k sp); [reflexivity|]. destruct (assoc k wf); reflexivity.
 Qed.
 
-Lemma cmd_stack_actual wf sp cd cv d v st k :
+(* command line: special > workflow > class vars > class defaults, in full *)
+Lemma cmd_stack_precedence wf sp cd cv d v st k :
   cmd_resolved wf sp cd cv = Some (d, v) -> cmd_stack wf sp cd cv = Some st ->
-  assoc k st = first_hit k [sp; wf; d; v].
+  assoc k st = first_hit k [sp; wf; v; d].
 Proof.
   unfold cmd_stack. intros -> H. inversion H; subst. apply assoc_cmd_final.
 Qed.
 
-Lemma cmd_stack_partial wf sp cd cv d v st k :
+(* in particular a class var outranks a class default of the same key (what fix C14-a repaired) *)
+Lemma class_var_over_class_default wf sp cd cv d v st k x :
   cmd_resolved wf sp cd cv = Some (d, v) -> cmd_stack wf sp cd cv = Some st ->
-  (has k (merge wf sp) = true \/ has k d = false \/ has k v = false \/ assoc k d = assoc k v) ->
-  assoc k st = first_hit k [sp; wf; v; d].
+  first_hit k [sp; wf] = None -> assoc k v = Some x -> assoc k st = Some x.
 Proof.
-  intros Hr Hs Hc. rewrite (cmd_stack_actual _ _ _ _ _ _ _ k Hr Hs). cbn [first_hit].
-  unfold has in Hc. rewrite assoc_merge in Hc.
-  destruct (assoc k sp); [reflexivity|]. destruct (assoc k wf); [reflexivity|].
-  destruct (assoc k d) as [x|] eqn:Ed; destruct (assoc k v) as [y|] eqn:Ev; try reflexivity.
-  destruct Hc as [Hc|[Hc|[Hc|Hc]]]; try discriminate. exact Hc.
-Qed.
-
-Definition task_command_statement : Prop :=
-  forall wf sp cd cv d v st k,
-    cmd_resolved wf sp cd cv = Some (d, v) -> cmd_stack wf sp cd cv = Some st ->
-    assoc k st = first_hit k [sp; wf; v; d].
-
-Lemma task_command_refuted : ~ task_command_statement.
-Proof.
-  intro H.
-  specialize (H [] [] [([97], VLit [120])] [([97], VLit [121])]
-                [([97], [120])] [([97], [121])] [([97], [120])] [97]
-                eq_refl eq_refl).
-  vm_compute in H. discriminate.
+  intros Hr Hs Hn Hv. rewrite (cmd_stack_precedence _ _ _ _ _ _ _ k Hr Hs). cbn [first_hit] in *.
+  destruct (assoc k sp); [discriminate|]. destruct (assoc k wf); [discriminate|].
+  rewrite Hv. reflexivity.
 Qed.
 
 Lemma workflow_over_class_cmd wf sp cd cv st k x :
@@ -481,9 +463,9 @@ Qed.
 (* a class value is visible iff neither the workflow nor the special values define the key *)
 Lemma class_visible_iff_cmd wf sp cd cv d v st k :
   cmd_resolved wf sp cd cv = Some (d, v) -> cmd_stack wf sp cd cv = Some st ->
-  first_hit k [sp; wf] = None -> assoc k st = first_hit k [d; v].
+  first_hit k [sp; wf] = None -> assoc k st = first_hit k [v; d].
 Proof.
-  intros Hr Hs Hn. rewrite (cmd_stack_actual _ _ _ _ _ _ _ k Hr Hs). cbn [first_hit] in *.
+  intros Hr Hs Hn. rewrite (cmd_stack_precedence _ _ _ _ _ _ _ k Hr Hs). cbn [first_hit] in *.
   destruct (assoc k sp); [discriminate|]. destruct (assoc k wf); [discriminate|]. reflexivity.
 Qed.
 
